@@ -497,7 +497,10 @@ class BackendZ3(Backend):
 
     @condom
     def StringV(self, ast):
-        return z3.StringVal(ast.args[0], ctx=self._context)
+        # z3.StringVal parses escape sequences (\u{48} becomes "H"); pass the code points themselves
+        value = ast.args[0]
+        chars = (ctypes.c_uint * len(value))(*map(ord, value))
+        return z3.SeqRef(z3.Z3_mk_u32string(self._context.ref(), len(value), chars), self._context)
 
     @condom
     def StringS(self, ast):
